@@ -99,8 +99,9 @@ def St.clear (s : St) : St := { s with cache := [], num := 0 }
 /-- A public property setter: stores the new value (version bump) and calls `clear_cache()`. -/
 def St.setParam (s : St) : St := { s with cache := [], num := 0, ver := s.ver + 1 }
 
-/-- The mutant "setter without `clear_cache()`" (for the proved counterexample only). -/
-def St.setParamNoClear (s : St) : St := { s with ver := s.ver + 1 }
+/-- The mutant "setter without `clear_cache()`" (for the proved counterexample only; no driver op
+runs a `Mutant.*` definition and none is evidence about /repo). -/
+def Mutant.setParamNoClear (s : St) : St := { s with ver := s.ver + 1 }
 
 def lookup (cache : List (Key × Inst)) (k : Key) : Option Inst :=
   (cache.find? (fun p => p.1 = k)).map (·.2)
@@ -213,8 +214,8 @@ def Memo.get {τ α} [DecidableEq τ] (compute : τ → α) (m : Memo τ α) (t 
   | some (t', v) => if t' = t then (m, v) else (⟨some (t, compute t)⟩, compute t)
   | none => (⟨some (t, compute t)⟩, compute t)
 
-/-- The mutant "matrices not rebuilt on dtype change". -/
-def Memo.getStale {τ α} (compute : τ → α) (m : Memo τ α) (t : τ) : Memo τ α × α :=
+/-- The mutant "matrices not rebuilt on dtype change" (for the proved counterexample only). -/
+def Mutant.memoGetStale {τ α} (compute : τ → α) (m : Memo τ α) (t : τ) : Memo τ α × α :=
   match m.slot with
   | some (_, v) => (m, v)
   | none => (⟨some (t, compute t)⟩, compute t)
@@ -303,5 +304,22 @@ def specC {α W R} (e : Elem) (c : Content α W R) : Nat → List (OpC W) → Li
      | .done => Res.done) :: specC e c ver ops
   | ver, .clear :: ops => .done :: specC e c ver ops
   | ver, .set :: ops => .done :: specC e c (ver + 1) ops
+
+/-! ### Instances that own a memo cell
+
+The `FourierFilter` of a `FresnelPropagator` / `AngularSpectrumPropagator` instance keeps its transfer
+function cast to one dtype (`_transfer_function`), rebuilt when a field of another dtype arrives.  The
+content of such an instance is what it was made for plus that cell.  Driver op `reqc` runs `stepC` with
+this content; the harness compares, after every propagation through the real elements, the dtype the
+cell of the instance handed out holds and whether this propagation rebuilt it. -/
+
+/-- `make_instance` leaves the cell empty; a propagation with a field of dtype tag `t` reads the cell
+through `Memo.get` and returns the kernel it used (`compute key ver t`: what is computed for this
+instance and this dtype). -/
+def memoContent {τ β : Type} [DecidableEq τ] (compute : Key → Nat → τ → β) :
+    Content (Key × Nat × Memo τ β) τ β where
+  make := fun k ver => (k, ver, ⟨none⟩)
+  use := fun a t =>
+    ((a.1, a.2.1, (a.2.2.get (compute a.1 a.2.1) t).1), (a.2.2.get (compute a.1 a.2.1) t).2)
 
 end HcipyVerif.Cache
